@@ -301,4 +301,5 @@ func c04gen(cw *caseWriter, tier string, r *rng) {
 
 func runC04(cw *caseWriter, tier string, seed uint64) {
 	c04gen(cw, tier, &rng{s: seed})
+	runC101(cw, tier, seed)
 }
